@@ -392,4 +392,26 @@ theorem mapVal_id_of_forall {f : String → β → β} {l : List (String × β)}
     obtain ⟨k', v'⟩ := p
     rw [mapVal_cons, h k' v' List.mem_cons_self, ih fun k v hm => h k v (List.mem_cons_of_mem _ hm)]
 
+/-- any `List.map` that keeps the keys is a `mapVal` (the model writes `fun (k, v) => (k, …)`) -/
+theorem map_eq_mapVal {f : String × β → String × γ} (hf : ∀ p, (f p).1 = p.1) (l : List (String × β)) :
+    l.map f = mapVal (fun k v => (f (k, v)).2) l := by
+  unfold mapVal
+  apply List.map_congr_left
+  rintro ⟨k, v⟩ _
+  exact Prod.ext (hf (k, v)) rfl
+
+theorem akeys_map_of_fst {f : String × β → String × γ} (hf : ∀ p, (f p).1 = p.1) (l : List (String × β)) :
+    akeys (l.map f) = akeys l := by
+  rw [map_eq_mapVal hf, akeys_mapVal]
+
+theorem keysNodup_map_of_fst {f : String × β → String × γ} (hf : ∀ p, (f p).1 = p.1) {l : List (String × β)}
+    (h : KeysNodup l) : KeysNodup (l.map f) := by
+  rw [map_eq_mapVal hf]; exact keysNodup_mapVal h
+
+theorem map_eq_self_of_forall {α : Type} {f : α → α} {l : List α} (h : ∀ p ∈ l, f p = p) : l.map f = l := by
+  induction l with
+  | nil => rfl
+  | cons a l ih =>
+    rw [List.map_cons, h a List.mem_cons_self, ih fun p hp => h p (List.mem_cons_of_mem _ hp)]
+
 end Burrow.Proofs.AList
